@@ -10,6 +10,7 @@ mod epoch;
 mod float;
 mod views;
 mod text;
+mod ettdb;
 
 pub enum Tok {
     Z(i128),
@@ -70,7 +71,7 @@ pub fn pdur(d: Duration) -> String {
 }
 
 fn run(name: &str, a: &Args) -> Option<String> {
-    dur::run(name, a).or_else(|| epoch::run(name, a)).or_else(|| float::run(name, a)).or_else(|| views::run(name, a)).or_else(|| text::run(name, a))
+    dur::run(name, a).or_else(|| epoch::run(name, a)).or_else(|| float::run(name, a)).or_else(|| views::run(name, a)).or_else(|| text::run(name, a)).or_else(|| ettdb::run(name, a))
 }
 
 fn main() {
